@@ -170,7 +170,7 @@ def refdrill(ids):
     ids = ids or sorted(d for d in os.listdir(rd) if os.path.isdir(os.path.join(rd, d)))
     rc, out = sh('git status --porcelain --untracked-files=no', cwd=R)
     assert out.strip() == '', '/repo is dirty:\n' + out
-    resf = os.path.join(V, 'seeded', 'REFACTOR_RESULTS.json') if SAVE else '/tmp/wt/REFACTOR_RESULTS.side.json'
+    resf = os.path.join(V, 'seeded', 'REFACTOR_RESULTS.json') if SAVE else '/tmp/wt/REFACTOR_RESULTS.%s.json' % os.path.basename(R.rstrip('/'))
     try:
         results = json.load(open(resf))
     except (OSError, ValueError):
@@ -205,7 +205,7 @@ def refdrill(ids):
             sh('git checkout -- .', cwd=R)
         alarms = {p: r['reported'] for p, r in row.items() if r['exit'] == 1}
         gaveup = {p: r['broken'] for p, r in row.items() if r['exit'] == 2}
-        results[i] = {'false_alarms': alarms, 'gave_up': gaveup, 'silent': sorted(p for p, r in row.items() if r['exit'] == 0 and not r.get('skipped')),
+        results[i] = {'tree': R, 'false_alarms': alarms, 'gave_up': gaveup, 'silent': sorted(p for p, r in row.items() if r['exit'] == 0 and not r.get('skipped')),
                       'not_run_units_untouched': sorted(p for p, r in row.items() if r.get('skipped')), 'touched': sorted(touched)}
         print('%-12s false alarms: %s   gave up (exit 2): %s' % (i, alarms or 'none', sorted(gaveup) or 'none'), flush=True)
         json.dump(results, open(resf, 'w'), indent=1, sort_keys=True)
